@@ -160,7 +160,7 @@ def abi_probe(repo, c07_only=False, skip_c07=False):
         flags.append('-DABI_PROBE_ONLY_C07')
     if skip_c07:
         flags.append('-DABI_PROBE_SKIP_C07')
-    r = sh([CC, '-std=gnu11', '-D_GNU_SOURCE=1', '-fsyntax-only', '-Wno-everything'] + flags + inc + [os.path.join(VERIF, 'harness', 'abi_probe.c')])
+    r = sh([CC, '-std=gnu11', '-D_GNU_SOURCE=1', '-D' + GUARD, '-fsyntax-only', '-Wno-everything'] + flags + inc + [os.path.join(VERIF, 'harness', 'abi_probe.c')])
     return r.returncode == 0, r.stdout
 
 
@@ -260,7 +260,8 @@ def plan(pid, tier):
     P['C17'] = lambda: (sweep_jobs('h_fault', 'c17_single', 6) + rc_jobs('h_fault', 'c17', 10, 400 if q else 6000))
     P['C19'] = lambda: (rc_jobs('h_codec', 'c19', 6, 1500 if q else 30000) + sweep_jobs('h_codec', 'c19_sweep', 6 if q else 12) + rc_jobs('h_codec', 'c19_inv', 3, 800 if q else 10000) + sweep_jobs('h_codec', 'c19_singular', 3 if q else 8)
                         + sweep_jobs('h_needed', 'c06_rs_sweep', 2 if q else 8, extra=['--only_isa', '1']))
-    P['C18'] = lambda: rc_jobs('t_race', 'c18_tsan', 16, 250 if q else 5000, variant='tsan')
+    P['C18'] = lambda: (rc_jobs('t_race', 'c18_tsan', 8, 300 if q else 6000, variant='tsan') + sweep_jobs('h_sched', 'c18_sched_exhaustive', 6 if q else 12)
+                        + rc_jobs('h_sched', 'c18_sched', 4, 600 if q else 20000))
     P['C20'] = lambda: rc_jobs('h_codec', 'c20', 16, 1500 if q else 40000)
     if pid not in P:
         return None
@@ -361,6 +362,8 @@ for _m in ['c14', 'c14_exhaustive', 'c15', 'c16', 'c16_pairs']:
 for _m in ['c17', 'c17_single']:
     MODE_HARNESS[_m] = ('h_fault', 'asan')
 MODE_HARNESS['c18_tsan'] = ('t_race', 'tsan')
+MODE_HARNESS['c18_sched'] = ('h_sched', 'asan')
+MODE_HARNESS['c18_sched_exhaustive'] = ('h_sched', 'asan')
 for _m in ['c07', 'c07_sweep', 'c08', 'c08_sweep', 'c04_matrix', 'c04_parity', 'c05_tables', 'c05_encode', 'c05_unsupported']:
     MODE_HARNESS[_m] = ('h_format', 'asan')
 for _m in ['c19', 'c19_sweep', 'c19_inv', 'c19_singular', 'c05_decode_sweep', 'c01', 'c01_xor_sweep', 'c01_rs_sweep', 'c01_isa_sweep', 'c02', 'c02_subsets', 'c02_band', 'c03', 'c03_xor_sweep', 'c03_rs_sweep', 'c20']:
